@@ -90,7 +90,11 @@ GenUser(s, op, g) ==
 GenNext == \E s \in GenSides : \E op \in OpsOf(tr[s]) : \E g \in Gaps \cup {"N"} : GenUser(s, op, g)
 GenSpec == GenInit /\ [][GenNext]_gvars
 
+\* "clean" / "cleandisjoint": histories without any hazard tag (plain file/file conflicts are not a hazard) - the only strata
+\* the seeded random (-simulate) families explore, so that the verdict on an unchanged tree never depends on the seed
+Hazards == tags \ {"TWOSIDED", "CONFLICT", "NOOP", "CF_FILEFILE"}
 Wanted == CASE Filter = "all" -> TRUE [] Filter = "disjoint" -> exOK [] Filter = "conflict" -> ~exOK
+            [] Filter = "clean" -> Hazards = {} [] Filter = "cleandisjoint" -> exOK /\ Hazards = {}
 Emit == (nops = MaxOps /\ Wanted) => PrintT("@@" \o ToJson(h))
 
 \* ---- universes ------------------------------------------------------------------------------------------
